@@ -423,7 +423,7 @@ def bad_applicable(bk, kind, first, auto):
         # except for template matching where the building phase fixed the length
         return (not first) or kind in ('tstatic', 'tdpa')
     if bk == 'words':
-        return (not first) and kind not in ('ttacc', 'tstatic', 'tdpa')
+        return (not first) and kind not in ('ttacc', 'tstatic')      # the static template attack takes any word count (dimension fixed by the classes)
     if bk == 'float_data':
         return kind in ('dpa', 'anova', 'nicv', 'snr', 'mia', 'tbuild')
     if bk == 'first_range':
